@@ -54,6 +54,7 @@ type inlineState struct {
 // AnchorNames: functions the rules recognise by name (as callees or as units of
 // analysis). They keep their identity: the inliner never dissolves them.
 var AnchorNames = map[string]bool{
+	"hasAnyTag":                   true,
 	"Add":                         true,
 	"AddonDefs":                   true,
 	"AddonForKey":                 true,
@@ -738,6 +739,18 @@ func (st *inlineState) replaceUses(v reflect.Value, pv *types.Var, arg ast.Expr)
 	}
 }
 
+func hasLoop(body *ast.BlockStmt) bool {
+	found := false
+	ast.Inspect(body, func(n ast.Node) bool {
+		switch n.(type) {
+		case *ast.ForStmt, *ast.RangeStmt:
+			found = true
+		}
+		return true
+	})
+	return found
+}
+
 func hasReturn(body *ast.BlockStmt) bool {
 	n := 0
 	ast.Inspect(body, func(m ast.Node) bool {
@@ -1287,7 +1300,7 @@ func (p *Program) renumber(nd *ast.FuncDecl, orig *FuncDecl) {
 	size := 0
 	ast.Inspect(nd, func(n ast.Node) bool {
 		if n != nil {
-			size += 8
+			size += 16
 			if id, ok := n.(*ast.Ident); ok {
 				size += len(id.Name)
 			}
@@ -1308,7 +1321,7 @@ func (p *Program) renumber(nd *ast.FuncDecl, orig *FuncDecl) {
 			return
 		}
 		np := token.Pos(next)
-		next += 1 + width
+		next += 2 + width // leave a gap: End() of a node is its last position + 1
 		// chase origins of already renumbered positions
 		if o, ok := p.posOrigin[old]; ok {
 			old = o
@@ -2156,7 +2169,6 @@ func (st *inlineState) duplicateTail(list []ast.Stmt) []ast.Stmt {
 	st.changed = true
 	return append(append([]ast.Stmt{}, list[:n-2]...), ni)
 }
-
 
 // replaceExprs replaces, below v, every expression satisfying pred (found in an
 // ast.Expr-typed field or slice element) by mk(old).
